@@ -270,14 +270,28 @@ Print Assumptions C06_contribution_is_spec_root.
 (* validator registration (builder-specs): DOMAIN_APPLICATION_BUILDER, genesis fork version, zero root *)
 Theorem C06_registration_is_spec_root :
   forall (H : N -> N -> N) (sig : Type) (zero_sig : sig) (sign : N -> N -> sig) (c : chain)
-         (a : account) (reg : option registration) (sigs : list sig),
+         (a : account) (reg : option go_registration) (sigs : list sig),
     run H sig zero_sig (spec_provider H c) (honest H sig sign) (spec_service c) (ReqRegistration a reg) = Ok sigs ->
     exists r, reg = Some r /\
-      sigs = [sign (a_key a) (compute_signing_root H (htr_registration H r)
+      sigs = [sign (a_key a) (compute_signing_root H (htr_registration H (wire_registration r))
                                 (compute_domain H DOMAIN_APPLICATION_BUILDER (ch_genesis_version c) 0))]
       /\ a_fail a = false.
 Proof. exact registration_spec. Qed.
 Print Assumptions C06_registration_is_spec_root.
+
+(* ... and the message signed is the registration that goes on the wire: its timestamp is the
+   whole seconds of the time.Time the caller supplied, whatever the sub-second part (ns = 0, 1,
+   499999999, 500000000, 999999999: the same message, the same signature) *)
+Theorem C06_registration_timestamp_is_whole_seconds :
+  forall (H : N -> N -> N) (sig : Type) (zero_sig : sig) (sign : N -> N -> sig) (c : chain)
+         (a : account) (fee gas pk : N) (s ns : Z) (sigs : list sig),
+    (0 <= ns < 1000000000)%Z -> (0 <= s < 18446744073709551616)%Z ->
+    run H sig zero_sig (spec_provider H c) (honest H sig sign) (spec_service c)
+        (ReqRegistration a (Some (GoRegistration fee gas (s * 1000000000 + ns) pk))) = Ok sigs ->
+    sigs = [sign (a_key a) (compute_signing_root H (htr_registration H (Registration fee gas (Z.to_N s) pk))
+                              (compute_domain H DOMAIN_APPLICATION_BUILDER (ch_genesis_version c) 0))].
+Proof. exact registration_seconds_spec. Qed.
+Print Assumptions C06_registration_timestamp_is_whole_seconds.
 
 (* ------------------------------------------------------------------------------------------ *)
 (* Supporting facts.                                                                            *)
@@ -521,7 +535,7 @@ Example C06_every_kind_example :
      ReqSyncRoots [wallet_acc 1; wallet_acc 2] 10 55;
      ReqContributions [dirk_acc 1; dirk_dist_acc 2]
        [ContributionAndProof 7 (Contribution 87 5 1 255 77) 88; ContributionAndProof 8 (Contribution 86 5 2 255 77) 99];
-     ReqRegistration (wallet_acc 1) (Some (Registration 1 2 3 4))] = true.
+     ReqRegistration (wallet_acc 1) (Some (GoRegistration 1 2 3999999999 4))] = true.
 Proof. vm_compute. reflexivity. Qed.
 
 (* a session on one service: a slot selection proof for the first slot after the second fork, one
